@@ -2,7 +2,7 @@
    memo; an in-place edit changes exactly one node of its owner's tree and nothing else; every read returns the pose a
    fresh process would return, whatever was read, edited or copied before. *)
 From Coq Require Import ZArith NArith List Lia ZifyBool ZifyN ZifyNat Bool.
-Require Import ListN Result Bytes Prog Codec PoseRead PoseReadLemmas Graph GraphEdit C06_Graph C06_HeapProofs.
+Require Import ListN Result Bytes Prog Codec PoseRead PoseReadLemmas StreamLemmas StreamRead StreamBack StreamIndep Graph GraphEdit C06_Graph C06_HeapProofs.
 Import ListNotations.
 Open Scope N_scope.
 
@@ -301,9 +301,56 @@ Proof.
     + exact HI1.
 Qed.
 
+(* the two endings of a read keep the invariant *)
+Lemma ginv_hit s res : GInv s -> GInv (snd (hit_g s res)).
+Proof.
+  intros HI. pose proof (memo_view_g_inv s HI) as [Hok Hm]. unfold hit_g.
+  destruct res as [p|e]; [|exact HI].
+  destruct (gmem s) as [gc|] eqn:Eg; [|exact HI].
+  destruct (Hm gc eq_refl) as [hd [Ts [Ss [St [Hv [Hr [HL [HO [ND HD]]]]]]]]]. rewrite Hr.
+  destruct (alloc_tree (VNode [] [header_tree hd; body_tree (p_body p)]) (gheap s)) as [ap h1] eqn:Hal. cbn [snd].
+  destruct HI as [Ts0 [Ss0 [HL0 [ND0 [HD0 HM0]]]]].
+  assert (Hdp : (depth (VNode [] [header_tree hd; body_tree (p_body p)]) <= 5)%nat).
+  { cbn [depth fold_right]. pose proof (depth_header_tree hd) as H4. pose proof (depth_body_tree (p_body p)) as H2.
+    apply le_n_S. apply Nat.max_lub; [etransitivity; [exact H4|repeat constructor]|apply Nat.max_lub; [etransitivity; [exact H2|repeat constructor]|apply Nat.le_0_l]]. }
+  pose proof (ginv_append s Ts0 Ss0 _ ap h1 HL0 ND0 HD0 HM0 Hdp Hal) as [HI' _]. rewrite Eg in HI'. exact HI'.
+Qed.
+Lemma ginv_miss s h e slice res : GInv s ->
+  MemoOK (Some {| m_start := 0; m_end := e; m_slice := slice; m_header := h |}) -> GInv (snd (miss_g s h e slice res)).
+Proof.
+  intros HI Hmemo. unfold miss_g.
+  destruct (alloc_tree (header_tree h) (gheap s)) as [am h1] eqn:Hal1.
+  assert (Hh : exists Ts Ss, OwnsL (gheap s) (ghanded s) Ts Ss /\ NoDup (concat Ss) /\ Forall (fun t => (depth t <= 5)%nat) Ts).
+  { destruct HI as [Ts0 [Ss0 [HL0 [ND0 [HD0 _]]]]]. unfold roots in HL0.
+    destruct (ownsL_app_inv _ _ _ _ _ HL0) as [T1 [T2 [S1 [S2 [-> [-> [_ H2]]]]]]].
+    exists T2, S2. split; [exact H2|]. rewrite concat_app in ND0. split; [eapply NoDup_app_r; exact ND0|].
+    apply Forall_app in HD0. exact (proj2 HD0). }
+  destruct Hh as [Ts [Ss [HL [ND HD]]]].
+  destruct (ownsL_alloc _ _ _ _ _ _ _ HL ND Hal1) as [Sm [HL1 [HOm [NDm [FRm [_ N2]]]]]].
+  set (gm := {| gm_start := 0; gm_end := e; gm_slice := slice; gm_addr := am |}).
+  assert (HI1 : GInv {| gheap := h1; gmem := Some gm; ghanded := ghanded s |}).
+  { exists (header_tree h :: Ts), (Sm :: Ss). unfold roots, memo_root, MemoG. cbn [gheap gmem ghanded gm_addr gm app].
+    split; [constructor; assumption|]. split; [exact N2|].
+    split; [constructor; [pose proof (depth_header_tree h); lia|exact HD]|]. exists h. split; [reflexivity|exact Hmemo]. }
+  destruct res as [p|er].
+  - destruct (alloc_tree (pose_tree p) h1) as [ap h2] eqn:Hal2. cbn [snd].
+    destruct HI1 as [Ts1 [Ss1 [HLa [NDa [HDa HMa]]]]].
+    exact (proj1 (ginv_append {| gheap := h1; gmem := Some gm; ghanded := ghanded s |} Ts1 Ss1 _ ap h2 HLa NDa HDa HMa (depth_pose_tree p) Hal2)).
+  - exact HI1.
+Qed.
+Lemma ginv_read_s s file a : GInv s -> GInv (snd (read_gs legacy s file a)).
+Proof.
+  intros HI. unfold read_gs. destruct (negb (any_arg a)); [apply ginv_read; exact HI|].
+  destruct (expect file _ _) as [r1|e] eqn:Hex; [|exact HI].
+  destruct (check_cache (memo_view_g s) (buf r1)) as [c|]; [apply ginv_hit; exact HI|].
+  destruct (run_stream file rd_header r1) as [[h r2]|e] eqn:Hrs; [|exact HI].
+  apply ginv_miss; [exact HI|]. exact (proj2 (proj2 (stream_header_bwd legacy file (memo_view_g s) r1 h r2 Hex Hrs))).
+Qed.
+
 Lemma ginv_step s o : GInv s -> GInv (fst (step_g legacy s o)).
 Proof.
-  intros HI. destruct o as [buffer a|k path g|k|k path i w|k path]; cbn [step_g].
+  intros HI. destruct o as [buffer a|k path g|k|k path i w|k path|file a]; cbn [step_g].
+  6:{ pose proof (ginv_read_s s file a HI). destruct (read_gs legacy s file a). exact H. }
   - pose proof (ginv_read s buffer a HI). destruct (read_g legacy s buffer a). exact H.
   - destruct (nth_error (ghanded s) k) as [root|] eqn:Ek; [|exact HI].
     destruct (addr_at (gheap s) root path) as [x|] eqn:Ep; [|exact HI]. cbn [fst].
@@ -454,6 +501,141 @@ Proof.
     + apply Hgen; [exists e1; reflexivity|exact Ej].
 Qed.
 
+(* ---- stream reads ---- *)
+Lemma hit_value s p c : GInv s -> memo_view_g s = Some c -> p_header p = m_header c ->
+  let r := hit_g s (Ok p) in
+  exists ap, fst r = Ok ap /\ ghanded (snd r) = ghanded s ++ [ap] /\ pose_at (snd r) (length (ghanded s)) = Some p.
+Proof.
+  intros HI Hmv Hph r. subst r. pose proof (memo_view_g_inv s HI) as [Hok Hm]. unfold hit_g.
+  destruct (gmem s) as [gc|] eqn:Eg.
+  2:{ unfold memo_view_g in Hmv. rewrite Eg in Hmv. discriminate. }
+  destruct (Hm gc eq_refl) as [hd [Ts [Ss [St [Hv [Hr [HL [HO [ND HD]]]]]]]]]. rewrite Hr.
+  assert (Hhd : m_header c = hd) by (rewrite Hv in Hmv; injection Hmv as <-; reflexivity).
+  destruct (alloc_tree (VNode [] [header_tree hd; body_tree (p_body p)]) (gheap s)) as [ap h1] eqn:Hal. cbn [fst snd ghanded].
+  exists ap. split; [reflexivity|]. split; [reflexivity|].
+  destruct HI as [Ts0 [Ss0 [HL0 [ND0 [HD0 HM0]]]]].
+  assert (Hdp : (depth (VNode [] [header_tree hd; body_tree (p_body p)]) <= 5)%nat).
+  { cbn [depth fold_right]. pose proof (depth_header_tree hd) as H4. pose proof (depth_body_tree (p_body p)) as H2.
+    apply le_n_S. apply Nat.max_lub; [etransitivity; [exact H4|repeat constructor]|apply Nat.max_lub; [etransitivity; [exact H2|repeat constructor]|apply Nat.le_0_l]]. }
+  destruct (ginv_append s Ts0 Ss0 _ ap h1 HL0 ND0 HD0 HM0 Hdp Hal) as [_ [S [HOp _]]].
+  assert (Hk : nth_error (ghanded {| gheap := h1; gmem := Some gc; ghanded := ghanded s ++ [ap] |}) (length (ghanded s)) = Some ap).
+  { cbn [ghanded]. rewrite nth_error_app2 by lia. rewrite Nat.sub_diag. reflexivity. }
+  rewrite (proj1 (view_of_owns _ _ _ _ _ Hk HOp Hdp)).
+  replace (VNode [] [header_tree hd; body_tree (p_body p)]) with (pose_tree p) by (unfold pose_tree; rewrite Hph, Hhd; reflexivity).
+  apply pose_of_pose_tree.
+Qed.
+Lemma miss_value s h e slice p :
+  let r := miss_g s h e slice (Ok p) in
+  exists ap, fst r = Ok ap /\ ghanded (snd r) = ghanded s ++ [ap] /\ pose_at (snd r) (length (ghanded s)) = Some p.
+Proof.
+  intros r. subst r. unfold miss_g.
+  destruct (alloc_tree (header_tree h) (gheap s)) as [am h1] eqn:Hal1.
+  destruct (alloc_tree (pose_tree p) h1) as [ap h2] eqn:Hal2. cbn [fst snd ghanded].
+  exists ap. split; [reflexivity|]. split; [reflexivity|].
+  destruct (alloc_owns _ _ _ _ Hal2) as [e2 [S2 [-> [HO2 _]]]].
+  set (s2 := {| gheap := h1 ++ e2; gmem := _; ghanded := ghanded s ++ [ap] |}).
+  assert (Hk : nth_error (ghanded s2) (length (ghanded s)) = Some ap).
+  { cbn [ghanded s2]. rewrite nth_error_app2 by lia. rewrite Nat.sub_diag. reflexivity. }
+  rewrite (proj1 (view_of_owns s2 _ _ _ _ Hk HO2 (depth_pose_tree p))). apply pose_of_pose_tree.
+Qed.
+Lemma keeps_gen s j root t S : nth_error (ghanded s) j = Some root -> Owns (gheap s) root t S -> (depth t <= 5)%nat ->
+  forall s', (exists e, gheap s' = gheap s ++ e) -> nth_error (ghanded s') j = Some root ->
+  pose_at s' j = pose_of_tree t /\ cells_of s' j = S.
+Proof. intros Ej HO Hd s' [e He] Hk. apply (view_of_owns s' j root t S Hk); [rewrite He; apply owns_ext; exact HO|exact Hd]. Qed.
+Lemma keeps_hit s res j : GInv s -> (j < length (ghanded s))%nat ->
+  pose_at (snd (hit_g s res)) j = pose_at s j /\ cells_of (snd (hit_g s res)) j = cells_of s j.
+Proof.
+  intros HI Hj. destruct (nth_error (ghanded s) j) as [root|] eqn:Ej; [|apply nth_error_None in Ej; lia].
+  destruct (ginv_pose s HI j root Ej) as [t [S [HO Hd]]].
+  destruct (view_of_owns s j root t S Ej HO Hd) as [-> ->].
+  pose proof (keeps_gen s j root t S Ej HO Hd) as Hgen. unfold hit_g.
+  destruct res as [p|e]; [|apply Hgen; [exists []; now rewrite app_nil_r|exact Ej]].
+  destruct (gmem s) as [gc|]; [|apply Hgen; [exists []; now rewrite app_nil_r|exact Ej]].
+  destruct (read_tree FUEL (gheap s) (gm_addr gc)) as [tm|]; [|apply Hgen; [exists []; now rewrite app_nil_r|exact Ej]].
+  destruct (alloc_tree _ (gheap s)) as [ap h1] eqn:Hal. destruct (alloc_owns _ _ _ _ Hal) as [e1 [_ [-> _]]].
+  apply Hgen; [exists e1; reflexivity|]. cbn [snd ghanded]. rewrite nth_error_app1 by lia. exact Ej.
+Qed.
+Lemma keeps_miss s h e slice res j : GInv s -> (j < length (ghanded s))%nat ->
+  pose_at (snd (miss_g s h e slice res)) j = pose_at s j /\ cells_of (snd (miss_g s h e slice res)) j = cells_of s j.
+Proof.
+  intros HI Hj. destruct (nth_error (ghanded s) j) as [root|] eqn:Ej; [|apply nth_error_None in Ej; lia].
+  destruct (ginv_pose s HI j root Ej) as [t [S [HO Hd]]].
+  destruct (view_of_owns s j root t S Ej HO Hd) as [-> ->].
+  pose proof (keeps_gen s j root t S Ej HO Hd) as Hgen. unfold miss_g.
+  destruct (alloc_tree (header_tree h) (gheap s)) as [am h1] eqn:Hal1. destruct (alloc_owns _ _ _ _ Hal1) as [e1 [_ [-> _]]].
+  destruct res as [p|er].
+  - destruct (alloc_tree (pose_tree p) (gheap s ++ e1)) as [ap h2] eqn:Hal2. destruct (alloc_owns _ _ _ _ Hal2) as [e2 [_ [-> _]]].
+    apply Hgen; [exists (e1 ++ e2); cbn [snd gheap]; now rewrite app_assoc|]. cbn [snd ghanded]. rewrite nth_error_app1 by lia. exact Ej.
+  - apply Hgen; [exists e1; reflexivity|exact Ej].
+Qed.
+
+(* the branch structure of PoseRead.read_stream, as read_gs follows it *)
+Lemma read_stream_shape m file a : any_arg a = true ->
+  match expect file (prefetch_len m) {| buf := []; off := 0; skipped := 0; pulled := 0 |} with
+  | Err e => fst (fst (read_stream legacy m file a)) = Err e
+  | Ok r1 =>
+      match check_cache m (buf r1) with
+      | Some c => forall p, fst (fst (read_stream legacy m file a)) = Ok p -> p_header p = m_header c
+      | None => match run_stream file rd_header r1 with
+                | Err e => fst (fst (read_stream legacy m file a)) = Err e
+                | Ok _ => True
+                end
+      end
+  end.
+Proof.
+  intros Ha. unfold read_stream. rewrite Ha. cbn [negb].
+  destruct (expect file _ _) as [r1|e]; [|reflexivity].
+  destruct (check_cache m (buf r1)) as [c|].
+  - intros p. destruct (run_stream file (read_body legacy (m_header c) a) _) as [[b r3]|e]; cbn [fst]; [|discriminate].
+    intros [= <-]. reflexivity.
+  - destruct (run_stream file rd_header r1) as [[h r2]|e]; [exact I|reflexivity].
+Qed.
+
+(* a windowed stream read hands out a new Pose object holding exactly the pose the same read returns in a fresh process (or
+   raises where that one raises); everything handed out before keeps its value and its cells *)
+Theorem read_gs_value s file a : GInv s -> any_arg a = true -> (forall h, v2prog (read_body legacy h a)) ->
+  let r := read_gs legacy s file a in
+  match fst (fst (read_stream legacy None file a)) with
+  | Ok p => exists ap, fst r = Ok ap /\ ghanded (snd r) = ghanded s ++ [ap] /\ pose_at (snd r) (length (ghanded s)) = Some p
+  | Err _ => (exists e, fst r = Err e) /\ ghanded (snd r) = ghanded s
+  end.
+Proof.
+  intros HI Ha Hv r. subst r.
+  pose proof (memo_view_g_inv s HI) as [Hok _].
+  pose proof (read_stream_memo_independent legacy (memo_view_g s) file a Hok Ha Hv) as Hso.
+  pose proof (read_stream_shape (memo_view_g s) file a Ha) as Hsh.
+  unfold read_gs. rewrite Ha. cbn [negb].
+  set (res := fst (fst (read_stream legacy (memo_view_g s) file a))) in *.
+  set (res0 := fst (fst (read_stream legacy None file a))) in *.
+  assert (Herr : forall e st, res = Err e -> ghanded st = ghanded s ->
+            match res0 with
+            | Ok p => exists ap, fst (@Err nat e, st) = Ok ap /\ ghanded (snd (@Err nat e, st)) = ghanded s ++ [ap] /\
+                                 pose_at (snd (@Err nat e, st)) (length (ghanded s)) = Some p
+            | Err _ => (exists e', fst (@Err nat e, st) = Err e') /\ ghanded (snd (@Err nat e, st)) = ghanded s
+            end).
+  { intros e st He Hst. rewrite He in Hso. destruct res0 as [p0|e0]; [contradiction|]. split; [exists e; reflexivity|exact Hst]. }
+  destruct (expect file _ _) as [r1|e]; [|exact (Herr e s Hsh eq_refl)].
+  destruct (check_cache (memo_view_g s) (buf r1)) as [c|] eqn:Hc.
+  - destruct res as [p|e] eqn:Er.
+    + destruct res0 as [p0|e0]; [|contradiction]. cbn in Hso. subst p0.
+      destruct (check_cache_hit _ _ _ Hok Hc) as [Hmv _].
+      exact (hit_value s p c HI Hmv (Hsh p eq_refl)).
+    + unfold hit_g. exact (Herr e s eq_refl eq_refl).
+  - destruct (run_stream file rd_header r1) as [[h r2]|e]; [|exact (Herr e s Hsh eq_refl)].
+    destruct res as [p|e] eqn:Er.
+    + destruct res0 as [p0|e0]; [|contradiction]. cbn in Hso. subst p0. apply miss_value.
+    + unfold miss_g. destruct (alloc_tree (header_tree h) (gheap s)) as [am h1]. apply (Herr e); reflexivity.
+Qed.
+Theorem read_gs_keeps_others s file a : GInv s -> forall j, (j < length (ghanded s))%nat ->
+  pose_at (snd (read_gs legacy s file a)) j = pose_at s j /\ cells_of (snd (read_gs legacy s file a)) j = cells_of s j.
+Proof.
+  intros HI j Hj. unfold read_gs. destruct (negb (any_arg a)); [apply read_g_keeps_others; assumption|].
+  destruct (expect file _ _) as [r1|e]; [|split; reflexivity].
+  destruct (check_cache (memo_view_g s) (buf r1)) as [c|]; [apply keeps_hit; assumption|].
+  destruct (run_stream file rd_header r1) as [[h r2]|e]; [|split; reflexivity].
+  apply keeps_miss; assumption.
+Qed.
+
 (* an in-place edit through the k-th pose changes one node of that pose's tree; every other pose handed out, and what the
    memo holds, stay exactly what they were *)
 Theorem edit_is_local s k path g : GInv s ->
@@ -541,6 +723,21 @@ Proof.
   - destruct H as [ap [H1 [_ H3]]]. exists ap. split; assumption.
   - exact (proj1 H).
 Qed.
+(* ... and the same for a windowed read of a seekable stream, after ANY history (which may itself contain stream reads): the
+   pose the same stream read returns in a fresh process, or an exception where that one raises *)
+Theorem history_independent_gs ops file a : any_arg a = true -> (forall h, v2prog (read_body legacy h a)) ->
+  let s := run_g legacy ginit ops in
+  let r := read_gs legacy s file a in
+  match fst (fst (read_stream legacy None file a)) with
+  | Ok p => exists ap, fst r = Ok ap /\ pose_at (snd r) (length (ghanded s)) = Some p
+  | Err _ => exists e, fst r = Err e
+  end.
+Proof.
+  intros Ha Hv s r. pose proof (read_gs_value s file a (ginv_run legacy ops ginit ginv_init) Ha Hv) as H. cbv zeta in H.
+  destruct (fst (fst (read_stream legacy None file a))) as [p|e].
+  - destruct H as [ap [H1 [_ H3]]]. exists ap. split; assumption.
+  - exact (proj1 H).
+Qed.
 Theorem reachable_no_sharing ops :
   let s := run_g legacy ginit ops in
   (forall i j x, i <> j -> In x (cells_of s i) -> ~ In x (cells_of s j)) /\ (forall j x, In x (memo_cells s) -> ~ In x (cells_of s j)).
@@ -555,7 +752,7 @@ Theorem structural_edit_is_local s o : GInv s ->
   (forall j, j <> k -> pose_at s' j = pose_at s j /\ cells_of s' j = cells_of s j) /\
   memo_view_g s' = memo_view_g s /\ memo_cells s' = memo_cells s.
 Proof.
-  intros HI Ho k s'. subst k s'. destruct o as [b a|k path g|k|k path i w|k path]; try contradiction; cbn [step_g].
+  intros HI Ho k s'. subst k s'. destruct o as [b a|k path g|k|k path i w|k path|f a]; try contradiction; cbn [step_g].
   - destruct (nth_error (ghanded s) k) as [root|] eqn:Ek; [|repeat split; reflexivity].
     destruct (addr_at (gheap s) root path) as [x|] eqn:Ep; [|repeat split; reflexivity]. cbn [fst].
     destruct (nth_error (gheap s) x) as [[p0 ptrs0]|] eqn:Ex.
@@ -607,6 +804,23 @@ Lemma ex_ghistory_runs :
   NoDup (memo_cells s ++ cells_of s 0 ++ cells_of s 1 ++ cells_of s 2).
 Proof.
   vm_compute. repeat split; try reflexivity; try discriminate; try lia.
+  repeat (constructor; [cbn; intuition discriminate|]). constructor.
+Qed.
+
+(* stream reads in a history: a windowed stream read, an in-place edit of its header, the same stream read again, a bytes read *)
+Definition ex_win : rargs := {| a_sf := Some 0%Z; a_st := None; a_ef := Some 1%Z; a_et := None |}.
+Definition ex_ghistory3 : list gop :=
+  [GReadS ex_file ex_win; GEdit 0 [0; 0]%nat (fun _ => [1; 2; 3]); GReadS ex_file ex_win; GRead ex_file no_args].
+Lemma ex_ghistory3_runs :
+  let s := run_g no_legacy ginit ex_ghistory3 in
+  length (ghanded s) = 3%nat /\
+  option_map (fun p => h_dims (p_header p)) (pose_at s 0) = Some (1, 2, 3) /\
+  pose_at s 1 = match fst (fst (read_stream no_legacy None ex_file ex_win)) with Ok p => Some p | Err _ => None end /\
+  pose_at s 1 <> None /\ pose_at s 1 <> pose_at s 0 /\
+  pose_at s 2 = match fst (read_bytes no_legacy None ex_file no_args) with Ok p => Some p | Err _ => None end /\
+  NoDup (memo_cells s ++ cells_of s 0 ++ cells_of s 1 ++ cells_of s 2).
+Proof.
+  vm_compute. repeat split; try reflexivity; try discriminate.
   repeat (constructor; [cbn; intuition discriminate|]). constructor.
 Qed.
 
